@@ -73,9 +73,13 @@ func runSolver(ctx context.Context, s solverSpec, file string, timeoutS int) (st
 }
 
 func (o *Obligation) query(withModel bool) string {
+	return o.queryPrefix(withModel, o.Prefix)
+}
+
+func (o *Obligation) queryPrefix(withModel bool, prefix int) string {
 	var sb strings.Builder
 	sb.WriteString(preamble)
-	for _, c := range o.Ctx.cmds[:o.Prefix] {
+	for _, c := range o.Ctx.cmds[:prefix] {
 		sb.WriteString(c)
 		sb.WriteString("\n")
 	}
@@ -94,11 +98,20 @@ func Solve(o *Obligation, dir string, idx int, timeoutS int, thorough bool) *Sol
 	if o.Goal == "false" && o.Kind != "canary" {
 		return &SolveResult{Status: "sat", Solver: "syntactic"}
 	}
+	if o.Kind == "canary2" {
+		// reachable before the call (not provably unreachable) but provably unreachable after assuming the callee's contract?
+		fb := filepath.Join(dir, fmt.Sprintf("q%05db.smt2", idx))
+		os.WriteFile(fb, []byte(o.queryPrefix(false, o.PrefixBefore)), 0644)
+		stB, _, _ := runSolver(context.Background(), solvers[0], fb, timeoutS)
+		if stB == "unsat" {
+			return &SolveResult{Status: "dead-site", Solver: solvers[0].name}
+		}
+	}
 	q := o.query(false)
 	file := filepath.Join(dir, fmt.Sprintf("q%05d.smt2", idx))
 	os.WriteFile(file, []byte(q), 0644)
 	res := &SolveResult{Bytes: len(q), Query: file, Status: "unknown"}
-	expectSat := o.Kind == "canary"
+	expectSat := o.Kind == "canary" || o.Kind == "canary2"
 	t0 := time.Now()
 	type r struct {
 		st, out, name string
@@ -151,7 +164,7 @@ func (o *Obligation) ok() bool {
 	if o.Result == nil {
 		return false
 	}
-	if o.Kind == "canary" {
+	if o.Kind == "canary" || o.Kind == "canary2" {
 		return o.Result.Status != "unsat" && o.Result.Status != "trivial" && o.Result.Status != "error"
 	}
 	return o.Result.Status == "unsat" || o.Result.Status == "trivial"
@@ -166,8 +179,8 @@ func SolveAll(obls []*Obligation, dir string, timeoutS int, thorough bool, worke
 			defer wg.Done()
 			for i := range ch {
 				t := timeoutS
-				if obls[i].Kind == "canary" {
-					t = 3
+				if obls[i].Kind == "canary" || obls[i].Kind == "canary2" {
+					t = 2
 				}
 				obls[i].Result = Solve(obls[i], dir, i, t, thorough)
 			}
